@@ -38,6 +38,7 @@ from .sansio.multipart import MultipartEncoder
 from .sansio.multipart import Preamble
 from .urls import _urlencode
 from .urls import iri_to_uri
+from .urls import uri_to_iri
 from .utils import cached_property
 from .utils import get_content_type
 from .wrappers.request import Request
@@ -1437,6 +1438,10 @@ class Cookie:
         for item in parameters_str.split(";"):
             k, sep, v = item.partition("=")
             params[k.strip().lower()] = v.strip() if sep else None
+
+        if params.get("path"):
+            # Request paths are matched in IRI form, see _add_cookies_to_wsgi.
+            params["path"] = uri_to_iri(params["path"])
 
         return cls(
             key=key.strip(),
